@@ -42,6 +42,9 @@ def confirm_ce(pid, replay_file, n, k):
 def run(pid, tier):
     t0 = time.time()
     invs, shapes, off = PROFILES[pid]
+    # C05: sweep the sync server with every need within its heads at several points of each walk
+    repl.PROBE_SWEEPS = 5 if pid == "C05" else 0
+    repl.TRACE_INVS = invs if pid == "C05" else None
     violations, mismatch, known = [], [], []
     cov = {"states": 0, "transitions": 0, "traces_validated_against_impl": 0, "samples": [], "model_configs": [], "walks": []}
     # (1) TLC decides the invariants on every behaviour of small instances of Replication.tla
